@@ -471,6 +471,74 @@ func run(p *kernel.Plan) (res *kernel.Result) {
 		return res.Fail("C17/passthrough-diff", "comment-free document changed: in=%s out=%s", clip(und), clip(raw))
 	}
 	res.Stat("passthrough_checked", 1)
+	// The same through another call pattern: a few small reads, then the rest
+	// with io.Copy (which uses the reader's WriteTo, should it have one).
+	{
+		tape3 := kernel.NewTape(p)
+		r3, _ := mkReader(p, tape3, und)
+		jr := ojson.NewJsonPlusReader(r3)
+		var out []byte
+		eof := false
+		for k := tape3.Next(4); k > 0 && !eof; k-- {
+			buf := make([]byte, 1+tape3.Next(7))
+			n, err := jr.Read(buf)
+			out = append(out, buf[:n]...)
+			if err == io.EOF {
+				eof = true
+			} else if err != nil {
+				return res.Fail("C17/passthrough-error:"+errClass(err), "reading a comment-free document failed: %v", err)
+			}
+		}
+		if !eof {
+			var rest bytes.Buffer
+			if _, err := io.Copy(&rest, jr); err != nil {
+				return res.Fail("C17/passthrough-error:"+errClass(err), "io.Copy of a comment-free document failed: %v", err)
+			}
+			out = append(out, rest.Bytes()...)
+		}
+		if !bytes.Equal(out, und) {
+			return res.Fail("C17/passthrough-diff-copy", "comment-free document changed when read with small reads followed by io.Copy: in=%s out=%s", clip(und), clip(out))
+		}
+	}
+	// Two readers in use at the same time, one of them finished: the finished one
+	// keeps reporting the end, the other one still yields its document.
+	{
+		tape4 := kernel.NewTape(p)
+		ra, _ := mkReader(p, tape4, und)
+		fin := ojson.NewJsonPlusReader(ra)
+		if _, err := readAllWith(fin, tape4, len(und)); err != nil {
+			return res.Fail("C17/passthrough-error:"+errClass(err), "reading a comment-free document failed: %v", err)
+		}
+		rb, _ := mkReader(p, tape4, dec)
+		live := ojson.NewJsonPlusReader(rb)
+		var out []byte
+		for i := 0; ; i++ {
+			if i%3 == 1 {
+				if n, err := fin.Read(make([]byte, 1+tape4.Next(64))); n != 0 || err == nil {
+					return res.Fail("C17/read-after-end", "a reader that had reported the end of its input returned (%d, %v) on a later Read", n, err)
+				}
+			}
+			buf := make([]byte, 1+tape4.Next(9))
+			if len(dec) > 4096 {
+				buf = make([]byte, 4096)
+			}
+			n, err := live.Read(buf)
+			out = append(out, buf[:n]...)
+			if err == io.EOF {
+				break
+			}
+			if err != nil {
+				return res.Fail("C17/error:"+errClass(err), "second reader failed: %v", err)
+			}
+			if i > 10*len(dec)+1000 {
+				return res.Fail("C17/no-progress", "second reader does not end")
+			}
+		}
+		var got2 interface{}
+		if err := stdjson.Unmarshal(out, &got2); err != nil || !reflect.DeepEqual(got2, want) {
+			return res.Fail("C17/value-mismatch-two-readers", "with a finished reader polled in between, the document decoded as %s (%v), want %s", clip([]byte(fmt.Sprint(got2))), err, clip([]byte(fmt.Sprint(want))))
+		}
+	}
 	return res
 }
 
@@ -478,6 +546,7 @@ var Check = &kernel.Check{
 	ID:  "C17",
 	Gen: gen,
 	Run: run,
+	ResetPools: true,
 	Simpler: map[string][]int64{
 		"rseg":  {simnet.SegWhole, simnet.SegOne},
 		"split": {-1},
